@@ -15,7 +15,7 @@ from vlib.wire import Wire, same_json
 PROP = 'C04'
 MANIFEST = dict(
     text="Program-quantified symbolic check of Method.bind / ViewMethod.bind / BaseValidator through the real dispatchers: every syntactically valid signature of <= 3 (quick) / <= 4 (thorough) parameters over "
-         "{positional-only, positional-or-keyword, *args, keyword-only, **kw} x defaults, x context {none, by name at each position, positional-first, view constructor; truthy and falsy context objects} x {function, coroutine, view method}; "
+         "{positional-only, positional-or-keyword, *args, keyword-only, **kw} x defaults, x context {none, by name at each position, positional-first, view constructor; truthy and falsy context objects} x {function, coroutine, view method}, plus the same function registered twice on one dispatcher (with its context setting and as a plain method, either served first); "
          "inputs: positional lists of length 0..5 with symbolic values and named mappings in which the PRESENCE of every candidate key (each parameter name, an unknown name, the context name) is a z3 boolean (all subsets explored). "
          "Oracle: a twin function with the same signature (minus the context) is called directly by Python; TypeError there <=> -32602 and the body did not run; otherwise the method saw exactly the twin's bound arguments plus the server-side context, and the result is returned unchanged.",
     ref='5 C04',
@@ -94,6 +94,10 @@ def obligations(tier):
                     # whichever registration is served first must not decide how the other binds
                     obs.append(dict(base, inp='list', ln=n, twice=1))
                     obs.append(dict(base, inp='named', twice=1, _weight=8))
+                if cm == 'view' and n >= 1 and not ({VP, VK} & {k for k, _ in sig}) and (n <= 2 or tier != 'quick'):
+                    obs.append(dict(base, inp='list', ln=n, same=1))
+                    obs.append(dict(base, inp='list', ln=n - 1, same=1))
+                    obs.append(dict(base, inp='named', same=1, _weight=8))
                 if cm != 'none' and (n <= 1 or tier != 'quick'):
                     # the same with a FALSY context object ({}): it is still the context the method must receive
                     obs.append(dict(base, inp='list', ln=min(n, 1), ctxv='falsy'))
@@ -131,6 +135,12 @@ def _build(ob):
         name = {VP: 'rest', VK: 'extra'}.get(k, f'p{i}')
         params.append((name, k, d))
     ctx_name = None
+    if ob.get('same'):
+        # a view method with an ordinary parameter named like the view's context ('c'): for the METHOD it is a caller argument
+        for i, (name, k, d) in enumerate(params):
+            if k not in (VP, VK):
+                params[i] = ('c', k, d)
+                break
     if ob['ctx'] == 'name':
         pos = ob['cpos']
         # kind that keeps the signature valid at that position: same as the neighbour to the left, else pok / kwonly
